@@ -16,8 +16,14 @@ which the minimally repaired code is right):
   estimate for the transformed input is one of the (transformed) keys whose exact correlation is
   within 1e-9 of the exact maximum of the original input (1e-4 when float32 duration sums are
   inexact).  With a unique exact maximum that is plain equality.  Nothing is skipped.
+* "one positive voice number for every input note", "returns one of the valid key names", "every note a step ...": for every
+  documented way of passing the input and the options - a structured array with any set of unit fields (the selected unit's
+  onset/duration fields and `pitch` present), a Part / Score / PerformedPart / Performance, every name VALID_KEY_PROFILES
+  lists for "the three key-profile sets", `return_sorted_keys`.  An array lacking the selected unit's duration field (or
+  `pitch`) may be rejected (ValueError) - that is compared with the model, not an oracle failure.
 * "a score imported from MIDI contains exactly the file's pitches": the multiset of Note.midi_pitch
-  over all parts (tied chains counted once) equals the multiset of note-on/off pairs of the file.
+  over all parts (tied chains counted once) equals the multiset of note-on/off pairs of the file - for every combination
+  of part_voice_assign_mode, estimate_voice_info, estimate_key, quantization_unit and assign_note_ids.
 """
 import math
 import os
@@ -32,38 +38,61 @@ from core import Eval
 
 PROPERTY = "C17"
 DRIVER = "drv_c17"
-PROPS = ["PartituraModel.Props.C17"]
+PROPS = ["PartituraModel.Props.C17", "PartituraModel.Props.C17Search", "PartituraModel.Props.C17Options"]
 TRUSTED = [
-    "the contig-mapping search VoSA is a parameter of the voice model (its real output is fed to the model; "
-    "that it covers every id exactly once and never raises is checked on every case, not proved)",
+    "VoSA is modelled completely (Model/Vosa.lean) over exact rationals; the only arithmetic on times in the code is "
+    "offset = onset + duration in the field's dtype (binary32/64/int): the offsets VSNote computed are captured and handed "
+    "to the model as a column, everything else compares times",
+    "object identity of VSNote / NoteStream / Contig / Voice (the code shares mutable objects) is modelled by row numbers and "
+    "stream numbers; set iteration order of est_best_connections' unassigned streams (only used for commuting increments)",
+    "np.ma masked argmin: masked entries are +inf, first minimum wins, index 0 when everything is masked (compared on random "
+    "matrices including the everything-masked case)",
+    "Contig.offset / Contig.duration are computed by the code but never read: not modelled",
     "np.corrcoef in binary64 (and float32 duration sums) vs the exact rational correlation order of the model: "
-    "the argmax is compared unless the exact top-two margin is < 1e-9 (1e-4 when float32 sums are inexact)",
+    "the argmax is compared unless the exact top-two margin is < 1e-9 (1e-4 when float32 sums are inexact); the full ranking of "
+    "return_sorted_keys is compared when every adjacent gap is above the tolerance",
     "binary64 evaluation of the three octave distances in compute_morphetic_pitch (model exact; the only exact tie "
     "chroma 6 / morph 0 is representable exactly)",
-    "numpy argsort(kind='mergesort') stable, default argsort an arbitrary order of ties, np.argmax/argmin first extremum, "
-    "np.mod/np.floor floor semantics, dict/defaultdict insertion order",
+    "numpy argsort(kind='mergesort'/'stable') and Python sorted/list.sort stable, default argsort an arbitrary order of ties, "
+    "np.argmax/argmin first extremum, np.unique sorted, np.mod/np.floor floor semantics, dict/defaultdict insertion order, "
+    "statistics.mode of an all-None list is None",
+    "note_array construction of Part / Score / PerformedPart / Performance (ensure_notearray path): the model starts from the "
+    "fields of the note array the object yields (its own properties are C03/C14)",
     "mido file (de)serialisation; add_measures / tie_notes / find_tuplets of the MIDI importer are only observed "
-    "through Note.midi_pitch, spelling and voice (their own properties are C04/C11)",
+    "through Note.midi_pitch, spelling and voice (their own properties are C04/C11); `quantize` is np.round (half to even)",
 ]
 PARTIAL = [
-    "totality of VoSA (never raising, answering every id it was given) is explored by the correspondence on every case, "
-    "not proved: total_given_vosa takes it as the hypothesis VosaCovers",
-    "key_transpose needs a unique exact maximum (hypothesis UniqueMax; an example proves the claim false without it: "
-    "one note is equally C major and C minor for the cbms profiles); ties are decided by binary64 noise in the code",
+    "that the contig-mapping search never raises is not proved: voices_total_partial / voices_array_total_partial assume the "
+    "MODELLED search answers (Vosa.run ... = some ...); on every generated case the model and the code agree on the complete "
+    "search result (ids, voices, contigs and streams), so a raise would show as a disagreement or an oracle failure. "
+    "What IS proved for the search: it answers every id exactly once (vosa_covers, no hypothesis left in VosaCovers), "
+    "est_best_connections is a matching with the global-minimum first choice, the cost entries",
+    "key_transpose / sorted_keys_head need a unique exact maximum (hypothesis UniqueMax; an example proves the claim false "
+    "without it: one note is equally C major and C minor for the cbms profiles); ties are decided by binary64 noise in the code",
     "the model's comparison is proved to be the order of the real-number correlation coefficients "
-    "(key_order_is_correlation_order); that binary64 np.corrcoef has the same argmax is compared, not proved",
+    "(key_order_is_correlation_order); that binary64 np.corrcoef has the same argmax / ranking is compared, not proved",
     "double_acc_bound needs K_post >= 1 (default 40): with K_post = 0 the first note's window is empty and the model "
     "(like the code) can produce six sharps on an A for an E flat (example in Props/C17.lean)",
+    "estimate_key(key_profiles=<matrix>) (an ndarray instead of a name) raises in the validation of estimate_key "
+    "(`array not in list`); only ks_kid accepts a matrix - outside the property's 'three key-profile sets', not covered",
 ]
 RULE = ("random note arrays (1-400 rows; simultaneous, overlapping, zero-length notes; shuffled; score units "
         "beat/quarter/div and performance units sec/tick; float32/float64/int fields) for ps13 (pitches 21-108), "
-        "voices (pitches 0-127, both modes, real VoSA output captured) and key (three profile sets); MIDI files written "
-        "with mido from such arrays, loaded with all six part_voice_assign modes; whole finite tables (KEYS, chroma x morph); "
-        "distinct = distinct case content; non-trivial = at least two rows (or a table case)")
-LEVEL_TEXT = ("Lean 4 theorems over ALL note lists about an executable model of ps13 stage 1 (complete), of the "
-              "rename/reverse/chord wrapper of voice estimation (for any search result) and of the exact-rational "
-              "Krumhansl-Schmuckler argmax; the model is tied to the code by regenerating ps13's tables, KEYS and the "
-              "profiles from the source on each run and by an exact differential run on random arrays and MIDI files.")
+        "voices (pitches 0-127, both modes; the real VoSA's input, offsets, contigs/streams and output captured and compared "
+        "with the modelled search, plus the wrapper+search end to end) and key (three profile sets under every accepted name, "
+        "return_sorted_keys); arrays holding several unit families at once / missing fields / extra fields (field selection); "
+        "Part, Score, PerformedPart, Performance inputs; pairwise_cost on note lists with shared objects and skip flags, "
+        "est_best_connections on random matrices in both modes; MIDI files written with mido from such arrays, loaded with all "
+        "six part_voice_assign modes x estimate_voice_info x estimate_key x quantization_unit x assign_note_ids; whole finite "
+        "tables (KEYS, chroma x morph, profile-name tables); distinct = distinct case content; non-trivial = at least two rows "
+        "(or a table case)")
+LEVEL_TEXT = ("Lean 4 theorems over ALL note lists about an executable model of ps13 stage 1 (complete), of voice estimation "
+              "INCLUDING the contig-mapping search (wrapper proved well-formed for any search result; the modelled search proved "
+              "to answer every id once; its not raising is the one assumption left), of the field/unit selection and profile-name "
+              "tables of the wrappers, and of the exact-rational Krumhansl-Schmuckler argmax and ranking; the model is tied to the "
+              "code by regenerating ps13's tables, KEYS, the profiles, MAX_COST, the name tables and the unit-preference chain from "
+              "the source on each run and by an exact differential run (complete VoSA results included) on random arrays, objects "
+              "and MIDI files.")
 SEARCH_LIMIT = 1500
 
 STEP_PC = {"C": 0, "D": 2, "E": 4, "F": 5, "G": 7, "A": 9, "B": 11}
@@ -71,6 +100,9 @@ MAJ = ["Cb", "Gb", "Db", "Ab", "Eb", "Bb", "F", "C", "G", "D", "A", "E", "B", "F
 MIN = ["Ab", "Eb", "Bb", "F", "C", "G", "D", "A", "E", "B", "F#", "C#", "G#", "D#", "A#"]
 VALID_KEYS = set(MAJ) | set(k + "m" for k in MIN)
 PROFILE_ARG = {"kk": "krumhansl_kessler", "cbms": "temperley", "kp": "kostka_payne"}
+# further documented spellings of each profile set (None = argument absent)
+PROFILE_ALIASES = {"kk": [None, "kk"], "cbms": ["tp"], "kp": ["kp"]}
+UNIT_ORDER = ["beat", "quarter", "div", "sec", "tick"]   # the preference the estimators document / implement
 UNITS = {"beat": True, "quarter": True, "div": True, "sec": False, "tick": False}
 
 
@@ -150,8 +182,10 @@ def cases(rng, tier):
             yield {"k": "key", "unit": unit, "dt": dt, "step": step, "rows": [r if 21 <= r[2] <= 108 else [r[0], r[1], 60] for r in rows], "s": 5, "scale": [3, 1], "oseed": 3}
     # ---- random arrays
     n_ps, n_vo, n_key, n_midi, n_rn = (250, 220, 250, 90, 40) if not big else (3500, 2500, 3500, 900, 600)
+    n_pc, n_mu, n_obj = (60, 70, 40) if not big else (800, 900, 500)
     if tier == "search":
         n_ps, n_vo, n_key, n_midi, n_rn = (500, 400, 500, 100, 0)
+        n_pc, n_mu, n_obj = 0, 150, 80
     for _ in range(n_ps):
         unit, dt, step = rand_unit(rng)
         n = rand_n(rng, tier, 400)
@@ -182,7 +216,27 @@ def cases(rng, tier):
         notes = [[r[0] * g, r[1] * g, r[2], rng.randrange(ntr), rng.randrange(rng.choice([1, 2, 3]))] for r in rows]
         yield {"k": "midi", "ppq": ppq, "ntr": ntr, "notes": notes, "mode": i % 6,
                "voice": rng.random() < 0.6, "key": rng.random() < 0.6, "meta_track": rng.random() < 0.4,
-               "timesig": rng.random() < 0.5}
+               "timesig": rng.random() < 0.5,
+               "qu": rng.choice([None, None, 1, g, 2 * g, max(1, ppq // 2), 3, 7, ppq]), "ids": rng.random() < 0.85}
+    for _ in range(n_mu):
+        n = rand_n(rng, tier, 40 if not big else 150)
+        units = [u for u in UNIT_ORDER if rng.random() < 0.45] or [rng.choice(UNIT_ORDER)]
+        rng.shuffle(units)
+        yield {"k": "mu", "rows": gen_rows(rng, n, 21, 108, zero=rng.random() < 0.5), "units": units,
+               "drop": rng.choice(units) if rng.random() < 0.12 else None, "pitch": rng.random() > 0.04,
+               "extra": rng.random() < 0.5, "f": rng.choice(["f4", "f8"]), "i": rng.choice(["i4", "i8"])}
+    yield {"k": "mu", "rows": [[0, 2, 60], [2, 2, 64]], "units": [], "drop": None, "pitch": True, "extra": True, "f": "f4", "i": "i4"}
+    for _ in range(n_obj):
+        n = rand_n(rng, tier, 30 if not big else 120)
+        yield {"k": "obj", "kind": rng.choice(["part", "part", "score", "ppart", "perf"]), "divs": rng.choice([1, 2, 4, 12]),
+               "rows": gen_rows(rng, n, 21, 108, zero=rng.random() < 0.4), "ts": rng.choice([[4, 4], [3, 4], [6, 8], [2, 2]])}
+    for _ in range(n_pc):
+        pool = [[o, rng.randint(30, 90), rng.choice([0, 0, 0, 1, 2])] for o in range(rng.randint(1, 8))]
+        prev = [rng.choice(pool) for _ in range(rng.randint(1, 6))]
+        nxt = [rng.choice(pool) for _ in range(rng.randint(1, 6))]
+        R, C = rng.randint(1, 6), rng.randint(1, 6)
+        vals = rng.choice([[0, 1, 2, 3], [0, 5, 7, 12, 1000, -1000], list(range(0, 40))])
+        yield {"k": "pc", "prev": prev, "next": nxt, "mat": [[rng.choice(vals) for _ in range(C)] for _ in range(R)]}
     for _ in range(n_rn):
         yield {"k": "rn", "v": [rng.randint(-3, 8) for _ in range(rng.randint(1, 30))]}
 
@@ -236,7 +290,8 @@ def fmt_spellings(rows):
 # ------------------------------------------------------------------ evaluation
 def evaluate(d):
     k = d["k"]
-    return {"ps": ev_ps, "vo": ev_vo, "key": ev_key, "midi": ev_midi, "tbl": ev_tbl, "cm": ev_cm, "rn": ev_rn}[k](d)
+    return {"ps": ev_ps, "vo": ev_vo, "key": ev_key, "midi": ev_midi, "tbl": ev_tbl, "cm": ev_cm, "rn": ev_rn,
+            "pc": ev_pc, "mu": ev_mu, "obj": ev_obj}[k](d)
 
 
 def ev_tbl(d):
@@ -256,6 +311,41 @@ def ev_tbl(d):
                 ev.oracle.append("key name: KEYS[%d]=%r but key_name_to_fifths_mode(%r) = %r" % (i, kk, name, e or r))
     ev.requests.append("keyname 24")
     ev.impl.append("err")
+    # ---- the two tables of profile names: which matrix a name selects in ks_kid / estimate_key (or ValueError)
+    import partitura.utils.globals as G
+    from partitura.musicanalysis import estimate_key
+
+    arr = np.array([(0, 60, 1), (1, 64, 1), (2, 67, 2)], dtype=[("onset_beat", "f4"), ("pitch", "i4"), ("duration_beat", "f4")])
+    mats = [("kk", KI.KRUMHANSL_KESSLER), ("cbms", KI.CMBS), ("kp", KI.KOSTKA_PAYNE)]
+
+    def selected(f):
+        seen = []
+        orig = KI._similarity_with_pitch_profile
+
+        def spy(note_array, key_profiles=KI.KRUMHANSL_KESSLER, similarity_func=None, normalize_distribution=False):
+            seen.append([nm for nm, m in mats if key_profiles is m])
+            return orig(note_array=note_array, key_profiles=key_profiles, similarity_func=similarity_func)
+
+        KI._similarity_with_pitch_profile = spy
+        try:
+            r, e = call(f)
+        finally:
+            KI._similarity_with_pitch_profile = orig
+        if e or len(seen) != 1 or len(seen[0]) != 1:
+            return "err"
+        return seen[0][0]
+
+    allnames = list(dict.fromkeys(list(G.VALID_KEY_PROFILES) + ["ks", "cmbs", "kk", "tp", "kp", "krumhansl", "x", "KK", ""]))
+    for nm in allnames:
+        ev.requests.append("kskid %s" % W.s(nm))
+        ev.impl.append(selected(lambda: KI.ks_kid(arr, key_profiles=nm)))
+        got = selected(lambda: estimate_key(arr, key_profiles=nm))
+        ev.requests.append("profname %s" % W.s(nm))
+        ev.impl.append(got)
+        if nm in G.VALID_KEY_PROFILES and got == "err":
+            ev.oracle.append("key names: estimate_key(key_profiles=%r) raises although VALID_KEY_PROFILES lists %r" % (nm, nm))
+    ev.requests.append("profname -")
+    ev.impl.append(selected(lambda: estimate_key(arr)))
     return ev
 
 
@@ -343,6 +433,8 @@ class VosaCapture:
 
         self.VS = VS
         self.calls = []
+        self.offsets = []
+        self.contigs = []
 
     def __enter__(self):
         self.orig = self.VS.VoSA.note_array
@@ -351,6 +443,9 @@ class VosaCapture:
         def note_array(vosa):
             out = cap.orig(vosa)
             cap.calls.append((np.array(vosa.score, copy=True), [(int(i), int(v)) for i, v in zip(out["id"], out["voice"])]))
+            # what the search computed on the way: the offset of every VSNote, the contigs as streams of ids
+            cap.offsets.append(dict((int(nn.id), exact(nn.offset)) for nn in vosa.notes))
+            cap.contigs.append([[[int(nn.id) for nn in st.notes] for st in c.streams] for c in vosa.contigs])
             return out
 
         self.VS.VoSA.note_array = note_array
@@ -358,6 +453,12 @@ class VosaCapture:
 
     def __exit__(self, *a):
         self.VS.VoSA.note_array = self.orig
+
+
+def vosa_rows_tok(inp, offs):
+    """the array handed to VoSA as wire rows: id pitch onset duration offset"""
+    return W.lst(lambda r: "%d %d %s %s %s" % (int(r["id"]), int(r["pitch"]), W.q(exact(r["onset"])), W.q(exact(r["duration"])),
+                                               W.q(offs[int(r["id"])])), list(inp))
 
 
 def voice_oracle(tag, v, onsets, durs, chord_mode, n):
@@ -408,6 +509,17 @@ def ev_vo(d):
             ev.impl.append(W.f_list(W.f_int, v))
             ids = sorted(i for i, _ in out)
             ev.info["vosa_covers_%s" % tag] = ids == sorted(int(i) for i in inp["id"])
+            # ---- the search itself: the modelled VoSA on the same rows (offsets as the code computed them)
+            offs = cap.offsets[0]
+            ev.requests.append("vosa " + vosa_rows_tok(inp, offs))
+            ev.impl.append(W.f_list(lambda x: W.f_tuple(W.f_int(x[0]), W.f_int(x[1])), out))
+            ev.requests.append("contigs " + vosa_rows_tok(inp, offs))
+            ev.impl.append(W.f_list(lambda c: W.f_list(lambda st: W.f_list(W.f_int, st), c), cap.contigs[0]))
+            # ---- end to end: wrapper and search both inside the model
+            alloff = [offs.get(i, exact(on[i] + du[i])) for i in range(n)]
+            ev.requests.append("voicesx %s %s" % (W.b(mono), W.lst(
+                lambda r: "%d %s %s %s" % (int(r[0]), W.q(exact(r[1])), W.q(exact(r[2])), W.q(r[3])), list(zip(a["pitch"], on, du, alloff)))))
+            ev.impl.append(W.f_list(W.f_int, v))
         else:
             ev.requests.append("vin %s %s" % (W.b(mono), notes_tok))
             ev.impl.append("VoSA called %d times" % len(cap.calls))
@@ -522,6 +634,35 @@ def ev_key(d):
                     ps, tag, name, nm2,
                     {"octave": "octave shifts", "scale": "scaling durations by %d/%d" % (num, den), "transpose": "transposing by %d" % s}[tag],
                     sorted(allowed)))
+        # ---- the other documented names of the same profile set: same model answer, through the model's name tables
+        for alias in PROFILE_ALIASES[ps]:
+            nm_a, e_a = call(estimate_key, a, **({} if alias is None else {"key_profiles": alias}))
+            atag = "default" if alias is None else repr(alias)
+            if e_a:
+                ev.oracle.append("key %s name %s: estimate_key raised %s: %s" % (ps, atag, type(e_a).__name__, str(e_a)[:80]))
+            elif nm_a not in VALID_KEYS:
+                ev.oracle.append("key %s name %s: %r is not a valid key name" % (ps, atag, nm_a))
+            elif margin >= tol:
+                ev.requests.append("keyarr %s %s" % ("-" if alias is None else W.s(alias), arr_tok(a)))
+                ev.impl.append(nm_a)
+        # ---- return_sorted_keys: all 24 names, by decreasing correlation
+        lst, e_s = call(estimate_key, a, key_profiles=arg, return_sorted_keys=True)
+        if e_s:
+            ev.oracle.append("key %s sorted: estimate_key(return_sorted_keys=True) raised %s: %s" % (ps, type(e_s).__name__, str(e_s)[:80]))
+        elif not isinstance(lst, list) or sorted(lst) != sorted(names):
+            ev.oracle.append("key %s sorted: the answer is not a permutation of the 24 key names: %r" % (ps, lst))
+        elif rs is not None:
+            cs = [rs[names.index(x)] for x in lst]
+            badpos = [i for i in range(23) if cs[i] < cs[i + 1] - tol]
+            if badpos:
+                i = badpos[0]
+                ev.oracle.append("key %s sorted: %s (r=%.6f) is ranked before %s (r=%.6f)" % (ps, lst[i], cs[i], lst[i + 1], cs[i + 1]))
+            gaps = sorted(rs, reverse=True)
+            if min(gaps[i] - gaps[i + 1] for i in range(23)) >= tol:
+                ev.requests.append("keysorted %s %s" % (ps, notes_tok))
+                ev.impl.append(W.f_list(str, lst))
+            else:
+                ev.info["sorted_near_tie_" + ps] = True
         if top is not None and name not in set(names[i] for i in top):
             # the estimate is not an exact maximiser: report through the correspondence (margin permitting), and
             # as an oracle failure only when the gap is far beyond rounding
@@ -582,10 +723,17 @@ def ev_midi(d):
         mid.save(path)
         with VosaCapture() as cap:
             sc, e = call(pt.load_score_midi, path, part_voice_assign_mode=d["mode"],
-                         estimate_voice_info=d["voice"], estimate_key=d["key"])
+                         estimate_voice_info=d["voice"], estimate_key=d["key"],
+                         quantization_unit=d.get("qu"), assign_note_ids=d.get("ids", True))
     finally:
         os.unlink(path)
-    tag = "mode %d%s%s" % (d["mode"], " +voices" if d["voice"] else "", " +key" if d["key"] else "")
+    tag = "mode %d%s%s%s%s" % (d["mode"], " +voices" if d["voice"] else "", " +key" if d["key"] else "",
+                               " quantization %d" % d["qu"] if d.get("qu") else "", "" if d.get("ids", True) else " no ids")
+    qu = d.get("qu")
+    if qu:
+        # `quantize`: unit * round-half-even(t / unit), applied to every event time (independent reading, exact)
+        qt = lambda t: qu * round(Fraction(t, qu))
+        kept = [(qt(on), qt(on + du) - qt(on), p, trk, ch) for (on, du, p, trk, ch) in kept]
     if e:
         ev.oracle.append("midi import (%s): load_score_midi raised %s: %s" % (tag, type(e).__name__, str(e)[:100]))
         return ev
@@ -623,11 +771,221 @@ def ev_midi(d):
         notes_tok = W.lst(lambda r: "%d %s %s" % (r[0], W.q(r[1]), W.q(r[2])), rows)
         byid = {}
         for nn in notes:
-            byid[int(nn.id[1:])] = int(nn.voice)
-        if d["mode"] in (1, 3, 4, 5) and len(byid) == n:
+            if nn.id is not None and d.get("ids", True):
+                byid[int(nn.id[1:])] = int(nn.voice)
+        # the search on the importer's array: the modelled VoSA again
+        ev.requests.append("vosa " + vosa_rows_tok(inp, cap.offsets[0]))
+        ev.impl.append(W.f_list(lambda x: W.f_tuple(W.f_int(x[0]), W.f_int(x[1])), out))
+        if d["mode"] in (1, 3, 4, 5) and len(byid) == n and d.get("ids", True):
             ev.requests.append("voices 1 %s %s" % (notes_tok, W.lst(lambda x: "%d %d" % x, out)))
             ev.impl.append(W.f_list(W.f_int, [byid[i] for i in range(n)]))
             ev.oracle += voice_oracle("midi " + tag, [byid[i] for i in range(n)], [r[1] for r in rows], [r[2] for r in rows], False, n)
+    return ev
+
+
+def mu_array(d):
+    """a structured array holding several unit families at once.  Every family is an INJECTIVE image of the same
+    integer grid (so "identical onset and duration" means the same in every family) but the images differ in
+    overlap structure, duration weights and (ticks) even time direction - reading the wrong family changes the answers."""
+    rows = d["rows"]
+    T = max(r[0] for r in rows) if rows else 0
+    col = {
+        "beat": (lambda t: t / 2, lambda x: x / 2),
+        "quarter": (lambda t: t / 4 + 1, lambda x: x / 4 + (0.5 if x > 0 else 0)),
+        "div": (lambda t: 3 * t, lambda x: 3 * x),
+        "sec": (lambda t: t * 0.125, lambda x: x * x * 0.125),
+        "tick": (lambda t: (T - t) * 10, lambda x: 5 * x + (3 if x > 0 else 0)),
+    }
+    dtype = []
+    for u in d["units"]:
+        ty = d["i"] if u in ("div", "tick") else d["f"]
+        dtype.append(("onset_" + u, ty))
+        if d.get("drop") != u:
+            dtype.append(("duration_" + u, ty))
+    if d.get("pitch", True):
+        dtype.insert(len(dtype) // 2, ("pitch", "i4"))
+    if d.get("extra"):
+        dtype += [("velocity", "i4"), ("id", "U8")]
+    a = np.zeros(len(rows), dtype=dtype)
+    for u in d["units"]:
+        fo, fd = col[u]
+        a["onset_" + u] = [fo(r[0]) for r in rows]
+        if d.get("drop") != u:
+            a["duration_" + u] = [fd(r[1]) for r in rows]
+    if d.get("pitch", True):
+        a["pitch"] = [r[2] for r in rows]
+    if d.get("extra"):
+        a["velocity"] = 64
+        a["id"] = ["n%d" % i for i in range(len(rows))]
+    return a
+
+
+def arr_tok(a):
+    """a structured array as a wire token: the pitch column (or -) and every onset_/duration_ field"""
+    names = a.dtype.names
+    cols = [nm for nm in names if nm.startswith("onset_") or nm.startswith("duration_")]
+    ptok = W.lst(W.i, a["pitch"]) if "pitch" in names else "-"
+    return "%s %s" % (ptok, W.lst(lambda nm: "%s %s" % (W.s(nm), W.lst(lambda x: W.q(exact(x)), a[nm])), cols))
+
+
+def preferred_unit(a):
+    """independent reading of the documented preference: score units before performance units"""
+    for u in UNIT_ORDER:
+        if "onset_" + u in a.dtype.names:
+            return u
+    return None
+
+
+def estimators_on(ev, tag, obj, a, grid=None):
+    """the three estimators on `obj` (a structured array, or an object whose note array is `a`): correspondence with the
+    wrapper model fed with the fields of `a`, and the property oracle on the answers"""
+    from partitura.musicanalysis import estimate_voices, estimate_key, estimate_spelling
+
+    names = a.dtype.names
+    u = preferred_unit(a)
+    complete = u is not None and "duration_" + u in names and "pitch" in names and len(a) > 0
+    n = len(a)
+    tok = arr_tok(a)
+    # ---- voices, both modes
+    for mono in (True, False):
+        with VosaCapture() as cap:
+            v, e = call(estimate_voices, obj, monophonic_voices=mono)
+        offs = cap.offsets[0] if len(cap.offsets) == 1 else {}
+        ev.requests.append("voarr %s %s %s" % (W.b(mono), tok, W.lst(W.q, [offs.get(i, 0) for i in range(n)])))
+        ev.impl.append("err" if e else W.f_list(W.f_int, v))
+        mt = "%s %s" % (tag, "mono" if mono else "chord")
+        if e and complete:
+            ev.oracle.append("voices %s: estimate_voices raised %s: %s" % (mt, type(e).__name__, str(e)[:100]))
+        if not e:
+            if grid is not None:
+                ons, dus = [Fraction(r[0]) for r in grid], [Fraction(r[1]) for r in grid]
+            else:
+                ons, dus = a["onset_" + u], a["duration_" + u]
+            ev.oracle += voice_oracle(mt, v, ons, dus, not mono, n)
+    # ---- key (default profiles)
+    name, e = call(estimate_key, obj)
+    if e:
+        ev.requests.append("keyarr - %s" % tok)
+        ev.impl.append("err")
+        if complete:
+            ev.oracle.append("key %s: estimate_key raised %s: %s" % (tag, type(e).__name__, str(e)[:100]))
+    else:
+        if name not in VALID_KEYS:
+            ev.oracle.append("key %s: %r is not a valid key name" % (tag, name))
+        import partitura.musicanalysis.key_identification as KI
+
+        h, rs = exact_corrs(a["pitch"], a["duration_" + u], KI.KRUMHANSL_KESSLER)
+        srt = sorted(rs, reverse=True) if rs else [1.0, 0.0]
+        if srt[0] - srt[1] >= 1e-4:
+            ev.requests.append("keyarr - %s" % tok)
+            ev.impl.append(name)
+    # ---- spelling
+    sp, e = call(estimate_spelling, obj)
+    ev.requests.append("psarr %s" % tok)
+    if e:
+        ev.impl.append("err")
+        if u is not None and "pitch" in names and len(a) > 0:
+            ev.oracle.append("spelling %s: estimate_spelling raised %s: %s" % (tag, type(e).__name__, str(e)[:100]))
+    else:
+        ev.impl.append(fmt_spellings(canon_spelling(a["onset_" + u], a["pitch"], sp)))
+        if len(sp) != n:
+            ev.oracle.append("spelling %s: %d spellings for %d notes" % (tag, len(sp), n))
+        for i, (pp, x) in enumerate(zip(a["pitch"], sp)):
+            if str(x["step"]) not in STEP_PC or spelled_midi(x["step"], x["alter"], x["octave"]) != int(pp):
+                ev.oracle.append("spelling %s: note %d pitch %d spelled %r does not sound its pitch" % (tag, i, int(pp), tuple(x)))
+                break
+            if abs(int(x["alter"])) > 2:
+                ev.oracle.append("spelling %s: alteration beyond a double accidental: note %d -> %r" % (tag, i, tuple(x)))
+                break
+
+
+def ev_mu(d):
+    """arrays with several unit families, missing fields, extra fields: field selection of the three estimators"""
+    import partitura.musicanalysis.voice_separation as VS
+    from partitura.utils.music import get_time_units_from_note_array
+
+    a = mu_array(d)
+    ev = Eval(key="mu:%s" % h32(d) if len(a) > 1 else None)
+    r, e = call(get_time_units_from_note_array, a)
+    ev.requests.append("units %s" % W.lst(W.s, a.dtype.names))
+    ev.impl.append("err" if e or r is None else W.f_tuple(*r))
+    pr, e = call(VS.prepare_notearray, a)
+    ev.requests.append("prep %s" % arr_tok(a))
+    if e:
+        ev.impl.append("err")
+    else:
+        ev.impl.append(W.f_list(lambda x: W.f_tuple(W.f_int(x["pitch"]), W.f_rat(exact(x["onset"])), W.f_rat(exact(x["duration"]))), pr))
+        if [int(x) for x in pr["id"]] != list(range(len(a))):
+            ev.oracle.append("voices prepare: ids %r are not the row numbers" % (pr["id"].tolist()[:10],))
+    estimators_on(ev, "multi-unit", a, a, grid=d["rows"])
+    return ev
+
+
+def build_object(d):
+    """a Part / Score / PerformedPart / Performance holding the rows"""
+    import partitura as pt
+    from partitura import score as S
+    from partitura.performance import PerformedPart, Performance
+    from partitura.utils.music import midi_pitch_to_pitch_spelling
+
+    rows = d["rows"]
+    if d["kind"] in ("ppart", "perf"):
+        notes = [dict(midi_pitch=int(p), note_on=on * 0.125, note_off=(on + du) * 0.125, velocity=64, id="n%d" % i)
+                 for i, (on, du, p) in enumerate(rows)]
+        pp = PerformedPart(notes)
+        obj = pp if d["kind"] == "ppart" else Performance(pp)
+        return obj, obj.note_array()
+    parts = []
+    split = [rows] if d["kind"] == "part" or len(rows) < 2 else [rows[0::2], rows[1::2]]
+    for k, rr in enumerate(split):
+        part = S.Part("P%d" % k, quarter_duration=d["divs"])
+        part.add(S.TimeSignature(*d["ts"]), 0)
+        for i, (on, du, p) in enumerate(rr):
+            st, al, oc = midi_pitch_to_pitch_spelling(p)
+            if du > 0:
+                part.add(S.Note(step=st, alter=al, octave=oc, id="p%dn%d" % (k, i), voice=1), on, on + du)
+            else:
+                part.add(S.GraceNote(grace_type="appoggiatura", step=st, alter=al, octave=oc, id="p%dn%d" % (k, i), voice=1), on, on)
+        parts.append(part)
+    if d["kind"] == "part":
+        return parts[0], parts[0].note_array()
+    sc = S.Score(parts)
+    return sc, sc.note_array()
+
+
+def ev_obj(d):
+    """Part / Score / PerformedPart / Performance inputs: the `ensure_notearray` path of the three estimators"""
+    obj, a = build_object(d)
+    ev = Eval(key="obj:%s" % h32(d) if len(a) > 1 else None)
+    if len(a) != len(d["rows"]):
+        ev.oracle.append("object input: note array has %d rows for %d notes" % (len(a), len(d["rows"])))
+        return ev
+    estimators_on(ev, d["kind"], obj, a)
+    return ev
+
+
+def ev_pc(d):
+    """`pairwise_cost` on lists of notes (shared objects, skip flags) and `est_best_connections` on a matrix, both modes"""
+    import partitura.musicanalysis.voice_separation as VS
+
+    ev = Eval(key="pc:%s" % h32(d))
+    objs = {}
+    for o, p, sk in d["prev"] + d["next"]:
+        if o not in objs:
+            nn = VS.VSNote(pitch=np.int32(p), onset=0.0, duration=1.0, note_id=o)
+            nn.skip_contig = sk
+            objs[o] = nn
+    tok = lambda l: W.lst(lambda r: "%d %d %d" % tuple(r), l)
+    c, e = call(VS.pairwise_cost, [objs[r[0]] for r in d["prev"]], [objs[r[0]] for r in d["next"]])
+    ev.requests.append("cost %s %s" % (tok(d["prev"]), tok(d["next"])))
+    ev.impl.append("err" if e else W.f_list(lambda row: W.f_list(W.f_int, row), c))
+    for mode in ("prev", "next"):
+        r, e = call(VS.est_best_connections, np.array(d["mat"], dtype=float), mode)
+        ev.requests.append("best %s %s" % (W.b(mode == "next"), W.lst(lambda row: W.lst(W.i, row), d["mat"])))
+        if e:
+            ev.impl.append("err")
+        else:
+            ev.impl.append(W.f_tuple(W.f_list(lambda x: W.f_tuple(W.f_int(x[0]), W.f_int(x[1])), r[0]), W.f_list(W.f_int, sorted(r[1]))))
     return ev
 
 
@@ -655,7 +1013,7 @@ def finding_key(d, f):
 
 def shrink(d):
     k = d["k"]
-    field = "notes" if k == "midi" else ("rows" if k in ("ps", "vo", "key") else None)
+    field = "notes" if k == "midi" else ("rows" if k in ("ps", "vo", "key", "mu", "obj") else None)
     if field is None:
         return
     rows = d[field]
@@ -677,6 +1035,22 @@ def shrink(d):
                 dd = dict(d)
                 dd[kk] = False
                 yield dd
+        if d.get("qu"):
+            dd = dict(d)
+            dd["qu"] = None
+            yield dd
+    if k == "mu":
+        for u in d["units"]:
+            if len(d["units"]) > 1:
+                dd = dict(d)
+                dd["units"] = [x for x in d["units"] if x != u]
+                if dd.get("drop") == u:
+                    dd["drop"] = None
+                yield dd
+        if d.get("extra"):
+            dd = dict(d)
+            dd["extra"] = False
+            yield dd
 
 
 def distribution(descs, results):
@@ -693,6 +1067,10 @@ def distribution(descs, results):
     near = sum(1 for r in results for kk in r.get("info", {}) if kk.startswith("near_tie"))
     uncovered = sum(1 for r in results for kk, v in r.get("info", {}).items() if kk.startswith("vosa_covers") and not v)
     modes = Counter(d["mode"] for d in descs if d["k"] == "midi")
-    return {"by_kind": dict(c), "rows": dict(sizes), "cases_with_zero_length_notes": zero, "units": dict(units),
+    quant = sum(1 for d in descs if d["k"] == "midi" and d.get("qu"))
+    sorted_skipped = sum(1 for r in results for kk in r.get("info", {}) if kk.startswith("sorted_near_tie"))
+    objs = Counter(d["kind"] for d in descs if d["k"] == "obj")
+    return {"midi_quantized": quant, "sorted_key_comparisons_skipped_as_near_ties": sorted_skipped, "object_inputs": dict(objs),
+            "by_kind": dict(c), "rows": dict(sizes), "cases_with_zero_length_notes": zero, "units": dict(units),
             "key_comparisons_skipped_as_near_ties": near, "vosa_outputs_not_covering_ids": uncovered,
             "midi_modes": dict(modes)}
